@@ -553,7 +553,7 @@ def main():
     if b is not None:
         # a translator that refuses the current source leaves its generated file stale:
         # every property whose theorem file depends on that output is no longer shown to hold
-        dep = dict(constgen=None, asmgen=('FfAsm', 'Asm'), limbgen=('FfRoutines', 'FfgRoutines', 'FfGlue', 'FfgGlue'), bigintgen=('BigIntRoutines', 'BigIntLoops', 'BigIntEq'), effgen=('EffectsIR', 'Effects'))
+        dep = dict(constgen=None, asmgen=('FfAsm', 'Asm'), limbgen=('FfRoutines', 'FfgRoutines', 'FfGlue', 'FfgGlue', 'FfMem', 'FfgMem'), bigintgen=('BigIntRoutines', 'BigIntLoops', 'BigIntEq'), effgen=('EffectsIR', 'Effects'))
         closure = property_closure(pid)
         for ff_ in b.failed_files:
             if ff_.startswith('translator:'):
